@@ -5,6 +5,10 @@ automaton `WellFormed`, `IsLongestValidPrefix`, rule classification `firstViolat
 -/
 import SuccinctlyVerif.Proof.Utf8ScalarMain
 import SuccinctlyVerif.Proof.Utf8Avx2
+import SuccinctlyVerif.Proof.Utf8BroadwordMain
+import SuccinctlyVerif.Proof.Utf8Prefix
+import SuccinctlyVerif.Proof.Utf8LineCol
+import SuccinctlyVerif.Proof.Utf8RoundTrip
 import SuccinctlyVerif.Proof.Utf8Codec
 namespace SV.Props.C13
 open SV SV.Utf8
@@ -42,16 +46,22 @@ theorem simd_engine_agrees (b : List Byte) : validateSimd b = validateScalar b :
   · rw [if_pos h]; exact ((scalar_ok_iff b).2 ((avx2_accept_iff b).1 h)).symm
   · rw [if_neg h]
 
-/-- Partial engine agreement: the broadword engine returns the scalar validator's result whenever
-its accept scan rejects, and `Ok` otherwise.  MISSING (not proved): `bwAccepts b = true ↔
-WellFormed b`, i.e. that the broadword accept scan never accepts ill-formed input; it is checked by
-the correspondence run only (every request cross-checks `bwAccepts` against `wellFormed`). -/
-theorem broadword_engine_agrees_partial (b : List Byte) (h : bwAccepts b = true ↔ WellFormed b) :
-    validateBroadword b = validateScalar b := by
+/-- The broadword accept scan (`load_block` / `load_word` ASCII skips, `first_high_byte`,
+`validate_sequence`) accepts exactly well-formed UTF-8. -/
+theorem broadword_accept_iff (b : List Byte) : bwAccepts b = true ↔ WellFormed b := bwAccepts_iff b
+
+/-- `validate_utf8_broadword` returns exactly the scalar validator's result. -/
+theorem broadword_engine_agrees (b : List Byte) : validateBroadword b = validateScalar b := by
   unfold validateBroadword
   by_cases hb : bwAccepts b = true
-  · rw [if_pos hb]; exact ((scalar_ok_iff b).2 (h.1 hb)).symm
+  · rw [if_pos hb]; exact ((scalar_ok_iff b).2 ((broadword_accept_iff b).1 hb)).symm
   · rw [if_neg hb]
+
+/-- All three engines (AVX2/dispatcher, broadword, scalar) return the same `Result` — same accept
+set and, on rejection, the same `Utf8Error` — for every byte string. -/
+theorem engines_agree (b : List Byte) :
+    validateSimd b = validateScalar b ∧ validateBroadword b = validateScalar b :=
+  ⟨simd_engine_agrees b, broadword_engine_agrees b⟩
 
 example : bwAccepts [0x41#8, 0xC3#8, 0xA9#8] = true := by decide
 
@@ -84,6 +94,53 @@ theorem error_kind_and_offset_partial (b : List Byte) (e : Utf8Error) (h : valid
 example : validateScalar [0x41#8, 0xED#8, 0xA0#8, 0x80#8] =
     some { offset := 1, line := 1, column := 2, kind := .surrogateCodepoint } := by decide
 
+/-- The executable `validPrefixLen` of the spec (used by the driver for the expected offset of the
+`val` stream) is the length of the longest well-formed prefix, for every byte string. -/
+theorem validPrefixLen_spec (b : List Byte) : IsLongestValidPrefix b (validPrefixLen b) :=
+  Utf8.validPrefixLen_spec b
+
+example : validPrefixLen [0x41#8, 0xC3#8, 0x28#8] = 1 := by decide
+
+/-- The offset law in executable form: `offset = validPrefixLen b + i`, kind and `i` given by
+`firstViolation` of the input after its longest valid prefix; `i = 0` unless the kind is
+`InvalidContinuationByte`; the offset lies inside the input. -/
+theorem error_offset_validPrefixLen (b : List Byte) (e : Utf8Error) (h : validateScalar b = some e) :
+    ∃ i, firstViolation (b.drop (validPrefixLen b)) = some (e.kind, i) ∧
+      e.offset = validPrefixLen b + i ∧ (e.kind ≠ .invalidContinuationByte → i = 0) ∧ e.offset < b.length := by
+  obtain ⟨n, i, h1, h2, h3, h4⟩ := error_kind_and_offset_partial b e h
+  have hn : n = validPrefixLen b := longest_unique h1 (validPrefixLen_spec b)
+  subst hn
+  refine ⟨i, h2, h3, h4, ?_⟩
+  have := firstViolation_idx_lt h2
+  rw [List.length_drop] at this
+  omega
+
+/-- `error_linecol`: the reported line and column are those of the reported offset — line = 1 +
+number of `\n` before it, column = 1 + number of bytes after the last `\n` before it (LF-only
+lines, as this module defines them); proved through the 8-byte newline-counting kernel. -/
+theorem error_linecol (b : List Byte) (e : Utf8Error) (h : validateScalar b = some e) :
+    (e.line, e.column) = lineColLF b e.offset := by
+  obtain ⟨i, _, _, _, hlt⟩ := error_offset_validPrefixLen b e h
+  unfold validateScalar at h
+  cases hr : scalarRaw b with
+  | none => rw [hr] at h; cases h
+  | some r =>
+    rw [hr] at h
+    simp only [Option.map_some, Option.some.injEq] at h
+    subst h
+    simp only [errAt] at hlt ⊢
+    rw [lineAndColumn_eq]
+    have : ¬ r.2 > b.length := by omega
+    simp [this]
+
+/-- `line_and_column` itself (any input, any offset): the LF line/column, or a panic past the end. -/
+theorem line_and_column_eq (input : List Byte) (offset : Nat) :
+    lineAndColumn input offset = if offset > input.length then none else some (lineColLF input offset) :=
+  lineAndColumn_eq input offset
+
+example : lineAndColumn [0x0A#8, 0x41#8, 0x0A#8, 0x0A#8, 0x41#8, 0x41#8, 0x41#8, 0x41#8, 0x0A#8, 0x41#8] 10 = some (5, 2) := by
+  decide
+
 /-- The property's full offset claim (never asserted). -/
 def error_offset_full_statement : Prop :=
   ∀ (b : List Byte) (e : Utf8Error), validateScalar b = some e → IsLongestValidPrefix b e.offset
@@ -105,5 +162,33 @@ theorem error_offset_partial (b : List Byte) (e : Utf8Error) (h : validateScalar
 
 example : validateScalar [0x0A#8, 0xC0#8, 0x80#8] =
     some { offset := 1, line := 2, column := 1, kind := .overlongEncoding } := by decide
+
+/-- `encode_code_point` rejects exactly the values that are not Unicode scalar values. -/
+theorem encode_none_iff_not_scalar (cp : BitVec 32) :
+    encodeCodePoint cp = none ↔ isScalar cp.toNat = false := by
+  rw [(decode_encode_all cp).1]
+  simp only [isScalar, BitVec.le_def, BitVec.lt_def, gt_iff_lt, BitVec.toNat_ofNat, Bool.or_eq_false_iff,
+    Bool.and_eq_false_iff, decide_eq_false_iff_not]
+  omega
+
+/-- `decode_encode`: for every scalar value `cp` (every `u32` the encoder accepts),
+`decode_code_point(encode_code_point(cp))` returns `(cp, len)`, both on the `len` encoded bytes and on
+the whole zero-padded four-byte buffer. -/
+theorem decode_encode (cp : BitVec 32) (buf : List Byte) (len : Nat)
+    (h : encodeCodePoint cp = some (buf, len)) :
+    decodeCodePoint (buf.take len) = some (cp, len) ∧ decodeCodePoint buf = some (cp, len) :=
+  (decode_encode_all cp).2 buf len h
+
+example : encodeCodePoint 0x20AC#32 = some ([0xE2#8, 0x82#8, 0xAC#8, 0x00#8], 3) := by decide
+
+/-- `encode_decode`: whenever `decode_code_point` succeeds with `(cp, n)`, `encode_code_point(cp)`
+yields exactly the `n` bytes that were decoded (so overlong forms, surrogates and values above
+U+10FFFF never decode, and the decoded value is a scalar value). -/
+theorem encode_decode (bs : List Byte) (cp : BitVec 32) (n : Nat)
+    (h : decodeCodePoint bs = some (cp, n)) :
+    ∃ buf, encodeCodePoint cp = some (buf, n) ∧ buf.take n = bs.take n :=
+  encode_decode_all bs cp n h
+
+example : decodeCodePoint [0xF0#8, 0x9F#8, 0x98#8, 0x80#8, 0x41#8] = some (0x1F600#32, 4) := by decide
 
 end SV.Props.C13
